@@ -89,7 +89,7 @@ def main():
             t.append("miri")
         if pid in ("C03", "C05", "C06"):
             t.append("tsan")
-        if pid in ("C01", "C11", "C14", "C16"):
+        if pid in ("C01", "C05", "C06", "C11", "C14", "C16"):
             t.append("asan")
         if pid == "C16":
             t.append("fuzz")
